@@ -586,10 +586,33 @@ Proof.
     auto using orb_true_r.
 Qed.
 
-(* the logs of the private SEVM of run_target_function are read by nobody *)
-Lemma loop_bound_in_target_not_reported :
-  exists r, In true (iv_targets r) /\ loop_bound_warned r = false.
-Proof. exists (mkInvRun false [true] false). split; [left; reflexivity | reflexivity]. Qed.
+(* run_target_function reports the log of its private SEVM once the transaction has been explored:
+   a bounded loop in ANY of the transactions of an invariant run is warned about, and nothing else is *)
+Lemma loop_bound_in_target_reported : forall r,
+  In true (iv_targets r) -> loop_bound_warned r = true.
+Proof.
+  intros r H. unfold loop_bound_warned, target_warns_loop_bound.
+  assert (E : existsb (fun b : bool => true && b) (iv_targets r) = true).
+  { apply existsb_exists. exists true. split; [exact H | reflexivity]. }
+  rewrite E. rewrite orb_true_r. reflexivity.
+Qed.
+
+Theorem loop_bound_warned_iff : forall r,
+  loop_bound_warned r = true <-> (iv_setup r = true \/ In true (iv_targets r) \/ iv_test r = true).
+Proof.
+  intros r. split.
+  - unfold loop_bound_warned. intros H.
+    apply orb_true_iff in H. destruct H as [H|H].
+    + apply orb_true_iff in H. destruct H as [H|H].
+      * apply andb_true_iff in H. tauto.
+      * right; left. apply existsb_exists in H. destruct H as [b [Hin Hb]].
+        apply andb_true_iff in Hb. destruct Hb as [_ ->]. exact Hin.
+    + apply andb_true_iff in H. tauto.
+  - intros [H|[H|H]].
+    + apply loop_bound_setup_and_test_reported. left. exact H.
+    + apply loop_bound_in_target_reported. exact H.
+    + apply loop_bound_setup_and_test_reported. right. exact H.
+Qed.
 
 Lemma width_cut_spec : forall width pid, width_cut width pid = true <-> (width <> 0 /\ pid >= width).
 Proof.
